@@ -91,6 +91,21 @@ Lemma field_lookup_cycles_checked : parser_field_lookup_cycles_checked = true.
 Proof. reflexivity. Qed.
 Lemma container_kind_error_positioned : parser_container_kind_error_positioned = true.
 Proof. reflexivity. Qed.
+(* five more: the field-set cycle guard is kept per definition being built (C16-F5b, 243abdcb2 - the guard of
+   f76fc3ec8 was one stack for the whole build and reported false cycles), the INHERITS chain of a system
+   table is walked too (C16-F11, 0a0d68cc1), a job's schedule is checked with the parser the definition
+   builder uses (C16-F13, b868c7680), the package of a parameter type is the resolved one (C16-F16,
+   385a7f25a), the depth of parentheses is bounded before the recursive descent starts (C16-F17, 300f06f2c) *)
+Lemma field_set_guard_per_definition : parser_field_set_guard_per_definition = true.
+Proof. reflexivity. Qed.
+Lemma system_tables_chain_checked : parser_system_tables_chain_checked = true.
+Proof. reflexivity. Qed.
+Lemma job_schedule_standard : parser_job_schedule_standard = true.
+Proof. reflexivity. Qed.
+Lemma parameter_package_resolved : parser_parameter_package_resolved = true.
+Proof. reflexivity. Qed.
+Lemma nesting_depth_bounded : parser_nesting_depth_bounded = true.
+Proof. reflexivity. Qed.
 
 (* the headline: the compiler model never panics, on any schema (no guard, not even wf) *)
 Theorem compiler_model_total : forall a, compile16 a <> VPanic.
@@ -114,13 +129,18 @@ Proof. reflexivity. Qed.
 Lemma compiler_checks_grant_matches : parser_checks_grant_matches = true.
 Proof. reflexivity. Qed.
 
+(* side condition: the compiler checks the kind of a table named as a command parameter itself (repair of
+   C16-F12, fc0be6878) *)
+Lemma compiler_checks_command_parameter_kinds : parser_command_parameter_kinds_checked = true.
+Proof. reflexivity. Qed.
+
 (* the second headline - "no nil error followed by a failing Build()" as a statement about the compiler
-   model: no schema at all (no guard, not even wf) gets the verdict Invalid.  One hypothesis, the open
-   finding C16-F12: the compiler checks the kind of a table named as a command parameter (it does not,
-   as read off the source; builder.Build() refuses anything but an ODoc). *)
-Theorem no_unbuildable_definition :
-  parser_command_parameter_kinds_checked = true -> forall a, compile16 a <> VInvalid.
-Proof. exact (compile16_never_invalid_flag compiler_checks_view_partition_key compiler_checks_grant_matches). Qed.
+   model: no schema at all (no guard, not even wf) gets the verdict Invalid *)
+Theorem no_unbuildable_definition : forall a, compile16 a <> VInvalid.
+Proof.
+  exact (compile16_never_invalid_flag compiler_checks_view_partition_key compiler_checks_grant_matches
+                                      compiler_checks_command_parameter_kinds).
+Qed.
 
 (* the same for any analyser that has both checks, whether or not it recovers builder panics ... *)
 Theorem no_unbuildable_definition_when_analyser_checks :
